@@ -52,8 +52,13 @@ def main(argv=None):
     ap.add_argument("what")
     ap.add_argument("--tier", default=os.environ.get("VERIF_TIER", "quick"), choices=["quick", "thorough"])
     ap.add_argument("--replay", default=None)
-    ap.add_argument("--keep-work", action="store_true")
+    ap.add_argument("--no-evidence", action="store_true", help="scratch run (selftest): no evidence file, replays under .work")
     a = ap.parse_args(argv)
+    if a.no_evidence:
+        os.environ["VERIF_SCRATCH"] = "1"
+        from . import common, judge as _j
+        _j.REPLAYS = os.path.join(WORK, "replays-scratch")
+        os.makedirs(_j.REPLAYS, exist_ok=True)
     os.makedirs(WORK, exist_ok=True)
     os.makedirs(REPLAYS, exist_ok=True)
     try:
